@@ -3752,13 +3752,19 @@ impl<'source> Parser<'source> {
             },
             'u' => match chars.next() {
                 Some('{') => {
-                    let mut code = 0;
+                    let mut code: u32 = 0;
 
                     while let Some(c) = chars.peek().cloned() {
                         if c.is_ascii_hexdigit() {
                             chars.next();
-                            code *= 16;
-                            code += c.to_digit(16).unwrap();
+                            // More than 8 hex digits would overflow the u32
+                            let Some(next_code) = code
+                                .checked_mul(16)
+                                .and_then(|code| code.checked_add(c.to_digit(16).unwrap()))
+                            else {
+                                return self.error(UnicodeEscapeCodeOutOfRange);
+                            };
+                            code = next_code;
                         } else {
                             break;
                         }
